@@ -183,6 +183,13 @@ def report_replay(rep: Report, out: dict, cover: dict):
 
 
 def main(rep: Report, replay: dict | None) -> None:
+    try:
+        _main(rep, replay)
+    finally:
+        c14_real.cleanup()
+
+
+def _main(rep: Report, replay: dict | None) -> None:
     rep.assumptions += ASSUMPTIONS
     rep.rule = (
         "spec->code: every edge of the exhaustive quick models (tty lock: q, s, g; cell-size lock) covered by "
